@@ -23,7 +23,7 @@ type HarnessSpec struct {
 	Name     string
 	Tweak    func(cfg *sym.HarnessCfg, tier string)
 	Reach    []string // labels that must be witnessed (non-vacuity)
-	Tiers    string   // "" = both, "thorough" = thorough only
+	Tiers    string   // "" = both, "thorough" = thorough only, "quick" = quick only (superseded by a larger thorough variant)
 	Variant  string
 	AfterSat string
 }
@@ -342,7 +342,7 @@ func cmdCheck(args []string) int {
 		maxq                                                        int64
 	}{}
 	for _, hs := range spec.Harnesses {
-		if hs.Tiers == "thorough" && *tier != "thorough" {
+		if (hs.Tiers == "thorough" && *tier != "thorough") || (hs.Tiers == "quick" && *tier != "quick") {
 			continue
 		}
 		if *only != "" && hs.Name != *only {
